@@ -45,6 +45,7 @@ type TunnelScenario struct {
 	UMode   string  `json:"umode"`
 	USlow   int     `json:"uslow"`   // 1: the upstream reads only after it has written everything
 	RT      int     `json:"rt"`      // 1: the listener has a read timeout and the reply comes after the client was silent for longer
+	WT      int     `json:"wt"`      // 1: the listener has a write timeout; the client waits for the reply in mid-stream, is silent for longer than that, then goes on
 	Dead    int     `json:"dead"`    // 1: the service has two instances; the dial to the one picked first is refused
 	DeadPP  int     `json:"deadpp"`  // the pxyproto option of that instance (the one of the live instance is Proxy)
 	DT      int     `json:"dt"`      // 1: the proxy has a dial timeout and the upstream speaks when the tunnel is older than that
@@ -61,7 +62,7 @@ type TunnelCase struct {
 	// concretisation, fixed by the check so that a replay is exact
 	Path   string `json:"path"`             // tcp | sni | dyn | ws | tls (tcp listener that terminates TLS)
 	TLSVer int    `json:"tlsver,omitempty"` // tls: 12 | 13 = the client's maximum TLS version
-	Conf   string `json:"conf,omitempty"`   // listener configuration: "" | rt | wt | both (read / write timeout set)
+	Conf   string `json:"conf,omitempty"`   // listener configuration: "" | rt | wt | both (read / write timeout set) | wts | wtsrt (short write timeout, alone / with a long read timeout) | dt
 	Cork   bool   `json:"cork,omitempty"`   // tls: last data record and close_notify leave in ONE tcp segment
 	Spell  string `json:"spell"`            // tiny | line | big | mix | huge (client token 1 = 256 KiB)
 	Hello  string `json:"hello"`            // which captured ClientHello
@@ -442,6 +443,8 @@ func (r *tunnelRun) client(raw *net.TCPConn, conn tunnelConn, cork *corkConn) {
 	abort := c.Sc.CMode == "abort"
 	gate := make(chan bool, 1)
 	writerDone := make(chan struct{})
+	replyComplete, readerDone := make(chan struct{}), make(chan struct{})
+	replyLen := len(sp.Cat(c.CRecv))
 	var selfClosed int32
 	go func() {
 		defer close(writerDone)
@@ -449,13 +452,49 @@ func (r *tunnelRun) client(raw *net.TCPConn, conn tunnelConn, cork *corkConn) {
 			return
 		}
 		finishes := c.Sc.CMode == "half" || c.Sc.CMode == "close" || abort
+		sent, paused := 0, c.Sc.WT != 1
+		// Tunnel!CPauseOver: having sent up to the point at which the upstream replies, the client goes on only
+		// when it HAS the complete reply - and has then been silent for longer than the listener's write timeout
+		pause := func() bool {
+			if paused || sent < c.Sc.Trig {
+				return true
+			}
+			paused = true
+			if cork != nil {
+				cork.uncork() // what has been written so far leaves now: the upstream's reply depends on it
+			}
+			select {
+			case <-replyComplete:
+			case <-readerDone:
+				select {
+				case <-replyComplete:
+				default:
+					return false
+				}
+			case <-r.quit:
+				return false
+			}
+			select {
+			case <-time.After(r.env.Late): // creates the situation; no verdict depends on how long anything takes
+			case <-r.quit:
+				return false
+			}
+			return true
+		}
 		for i, s := range c.Sc.CSeg {
+			if !pause() {
+				return
+			}
+			sent += len(s)
 			if cork != nil && c.Cork && finishes && i == len(c.Sc.CSeg)-1 {
 				cork.cork() // the last segment travels together with the end of the stream
 			}
 			if _, err := conn.Write(sp.Cat(s)); err != nil {
 				return
 			}
+		}
+		if !pause() {
+			return
 		}
 		switch c.Sc.CMode {
 		case "close":
@@ -486,6 +525,7 @@ func (r *tunnelRun) client(raw *net.TCPConn, conn tunnelConn, cork *corkConn) {
 	}
 	buf := make([]byte, 64*1024)
 	var recv []byte
+	replySeen := false
 	for need < 0 || len(recv) < need {
 		b := buf
 		if need >= 0 && need-len(recv) < len(b) {
@@ -493,6 +533,10 @@ func (r *tunnelRun) client(raw *net.TCPConn, conn tunnelConn, cork *corkConn) {
 		}
 		n, err := conn.Read(b)
 		recv = append(recv, buf[:n]...)
+		if !replySeen && len(recv) >= replyLen {
+			replySeen = true
+			close(replyComplete)
+		}
 		if !opened && len(recv) >= len(WS101Bytes) && bytes.HasPrefix(recv, []byte("HTTP/1.1 101")) {
 			opened = true
 			gate <- true
@@ -506,6 +550,7 @@ func (r *tunnelRun) client(raw *net.TCPConn, conn tunnelConn, cork *corkConn) {
 			break
 		}
 	}
+	close(readerDone)
 	if !opened {
 		gate <- false
 		if r.env.WS {
@@ -740,6 +785,8 @@ func JudgeTunnel(c *TunnelCase, res *TunnelResult) (clause, msg string) {
 		return "tunnel-older-than-dial-timeout", "proxy with a dial timeout: data sent when the tunnel was older than that did not arrive: " + detail
 	case (cShort || uShort) && c.Sc.Refresh == 1:
 		return "tunnel-across-refresh", "tcp-dynamic listener: the tunnel did not survive the refreshes of the listener although its route never changed: " + detail
+	case (cShort || uShort) && c.Sc.WT == 1:
+		return "silent-client-with-write-timeout", "listener with a write timeout (which limits writes to the client): the client waited for the reply, was silent for longer than that and went on; not everything arrived: " + detail
 	case cShort && c.Sc.RT == 1:
 		return "reply-after-read-timeout", "listener with a read timeout: the reply which came after the client had been silent for longer than that did not reach the client completely: " + detail
 	case uShort && c.Sc.CMode == "abort":
